@@ -10,13 +10,13 @@ RULE = ('sequences of 1..25 relation declarations over pools of 3..15 elements (
         'disjunction over the worm gears in the chain; elements / self_locking must not be assignable and must not change under later declarations. '
         'Cyclic shadow graphs are not chains and are skipped. non-trivial = sequence with >= 1 re-route; distinct by chain signature')
 ASSUMPTIONS = ['the shadow follows calls that returned normally (C10 judges whether they should have)', 'self-locking verdicts within 1e-9 of the threshold are not used']
-HEADLINE = ['sequences', 'assemblies', 'assembled_ok', 'rejected_dangling_motor', 'rejected_duplicate_names', 'duplicates_outside_chain_accepted', 'reroutes',
+HEADLINE = ['second_assemblies', 'sequences', 'assemblies', 'assembled_ok', 'rejected_dangling_motor', 'rejected_duplicate_names', 'duplicates_outside_chain_accepted', 'reroutes',
             'self_locking_true', 'self_locking_false', 'immutability_checks', 'post_assembly_declarations', 'cyclic_skipped', 'chains_with_two_worms']
 
 
 def floors(tier):
     return {'assemblies': 1500, 'assembled_ok': 500, 'rejected_dangling_motor': 50, 'rejected_duplicate_names': 50, 'duplicates_outside_chain_accepted': 30, 'reroutes': 1000,
-            'self_locking_true': 40, 'self_locking_false': 300, 'immutability_checks': 1000, 'post_assembly_declarations': 500, 'chains_with_two_worms': 10,
+            'self_locking_true': 40, 'self_locking_false': 300, 'immutability_checks': 1000, 'post_assembly_declarations': 500, 'chains_with_two_worms': 10, 'second_assemblies': 300,
             'set:nontrivial': 60, 'set:chain_lengths': 8}
 
 
@@ -146,11 +146,40 @@ def sequence(ctx, i):
     flag0 = pt.self_locking
     ids0 = [id(e) for e in pt.elements]
     for _ in range(rng.randint(1, 3)):
-        DC.do_call(rng, pool)
+        c = DC.do_call(rng, pool)
         ctx.count('post_assembly_declarations')
+        if c.outcome is None:
+            shadow[id(c.a)] = c.b
+            if c.fn == 'worm':
+                wg = c.a if isinstance(c.a, mo.WormGear) else c.b
+                sl[id(wg)] = c.expect[1]['self_locking'] if c.expect[0] == 'accept' else None
     if [id(e) for e in pt.elements] != ids0 or pt.self_locking is not flag0:
         ctx.violation('C20:powertrain-changed-after-later-declarations', dict(wit, elements_after=[(type(e).__name__, e.name) for e in pt.elements], flag_before=flag0, flag_after=pt.self_locking), case)
         return
+    # a second powertrain assembled from the same motor after the later declarations follows the *new* graph
+    chain2, seen2, cyc2 = [motor], {id(motor)}, False
+    while id(chain2[-1]) in shadow:
+        nx = shadow[id(chain2[-1])]
+        if id(nx) in seen2:
+            cyc2 = True
+            break
+        chain2.append(nx)
+        seen2.add(id(nx))
+    if not cyc2 and len(chain2) > 1 and len({e.name for e in chain2}) == len(chain2):
+        try:
+            pt2 = G.Powertrain(motor=motor)
+        except Exception as ex:
+            ctx.violation('C20:assembly-outcome', dict(wit, second_assembly=True, outcome=type(ex).__name__, chain2=[(type(e).__name__, e.name) for e in chain2]), case)
+            return
+        ctx.count('second_assemblies')
+        if len(pt2.elements) != len(chain2) or any(x is not y for x, y in zip(pt2.elements, chain2)):
+            ctx.violation('C20:elements-differ-from-declared-chain', dict(wit, second_assembly=True, chain2=[(type(e).__name__, e.name) for e in chain2],
+                                                                         elements=[(type(e).__name__, e.name) for e in pt2.elements]), case)
+            return
+        v2 = [sl.get(id(w), False) for w in chain2 if isinstance(w, mo.WormGear)]
+        if None not in v2 and pt2.self_locking is not any(v is True for v in v2):
+            ctx.violation('C20:self-locking-flag', dict(wit, second_assembly=True, flag=pt2.self_locking, worm_verdicts=v2), case)
+            return
     if reroutes:
         ctx.seen('nontrivial', '-'.join(type(e).__name__[:2] for e in chain))
     if len(ctx.samples) < 3 and len(chain) > 3:
